@@ -119,6 +119,15 @@ def step (_ : Unit) (ts : List String) : Unit × String :=
     | ["safe", n, us] => match n.toNat?, ints us with
       | some n, some us => fixOut (sizeResize 0 (3 * (n % 64))) (3 * (n % 64)) us (safeOp (n % 64) us)
       | _, _ => "bad-op"
+    | ["safec", h] => match unhex h with
+      | some b => match safeConstOp b with
+        | none => oob
+        | some (w, r) =>
+          let cap := capOf (sizeResize (sizeInit b.length) (datawNeed b.length))
+          match r with
+          | .ok out => s!"off={wideOffset b.length} cap={cap} wide={natList w} {lenHex out}"
+          | .error f => s!"fault {faultName f}"
+      | none => "bad-op"
     | ["warr", us] => match ints us with
       | some us => orOob ((fromWideArr us).map lenHex)
       | none => "bad-op"
